@@ -61,7 +61,9 @@ def run_config(cfg):
     try:
         R = rh.run(cfg)
         if R.exception is not None:
-            raise explorer.HarnessError(f"reference run raised {R.exception}")
+            rep.case(explorer.digest(["ref", cfg]))
+            rep.violation(f"C11/run-raises/{R.exception[0]}/{R.exception[1]}", R.exception, {"cfg": cfg})
+            return rep.dump()
         K = R.n_calls
         ck = R.sink  # (iteration, bytes)
         iters = len(R.history["beta"])
@@ -73,8 +75,13 @@ def run_config(cfg):
         last_for_k = {}
         for k in range(K):
             F = rh.run(cfg, fault_at=k)
-            if F.exception is None or F.exception[0] != "InjectedFault":
-                raise explorer.HarnessError(f"fault at call {k} did not surface: {F.exception}")
+            if F.exception is None:
+                raise explorer.HarnessError(f"fault at call {k} did not surface")
+            if F.exception[0] != "InjectedFault":
+                rep.case(explorer.digest([cfg, k]))
+                rep.violation(f"C11/run-raises/{F.exception[0]}/{F.exception[1]}", F.exception, {"cfg": cfg, "crash_point": k})
+                last_for_k[k] = -1
+                continue
             if [b for _, b in F.sink] != [b for _, b in ck[: len(F.sink)]]:
                 raise explorer.HarnessError(f"faulted run diverged from the reference before the fault (k={k}, {cfg})")
             j = len(F.sink) - 1
@@ -98,6 +105,10 @@ def run_config(cfg):
                         F = rh.run(cfg, fault_at=ks[0], file_path=path)
                         if F.exception is None:
                             raise explorer.HarnessError("file-route fault did not surface")
+                        if F.exception[0] != "InjectedFault":
+                            rep.case(explorer.digest([cfg, j, route]))
+                            rep.violation(f"C11/run-raises/{F.exception[0]}/{F.exception[1]}", F.exception, case)
+                            continue
                         r = rh.run(cfg, resume_from=path)
                 except explorer.HarnessError:
                     raise
